@@ -562,21 +562,13 @@ def diagnose(cirq, circuit, cfg, P, text, malformed='', labels=()):
                 return 'if:empty-body:global-phase'
             if nifs < expected and any(len(b) > 1 for b in bodies):
                 return 'if:multi-statement-body'
-    only_semantic = P is not None and labels and all(l.startswith('condition[') or l == 'distribution' for l in labels)
     for conds, sub, nbefore in ctrls:
         for c in conds:
-            if isinstance(c, cirq.SympyCondition) and isinstance(c.expr, sympy.Eq) and not valid_id('m_' + cond_key(cirq, c)):
-                return 'cond:sympy-eq:register-name'
-            try:
-                k = cond_key(cirq, c)
-            except opsem.Unsupported:
-                continue
-            sizes = [len(a) for kk, a, _ in meas[:nbefore] if kk == k]
-            # the text is well formed and only the condition / the outcome statistics differ: a condition on a key whose
-            # latest measurement is narrower than an earlier one reads the stale high bits of the register
-            if only_semantic and len(sizes) > 1 and max(sizes[:-1]) > sizes[-1]:
-                return 'cond:stale-register-bits'
             if isinstance(c, cirq.SympyCondition) and isinstance(c.expr, sympy.Eq):
+                k = cond_key(cirq, c)
+                if not valid_id('m_' + k):
+                    return 'cond:sympy-eq:register-name'
+                sizes = [len(a) for kk, a, _ in meas[:nbefore] if kk == k]
                 if sizes and sizes[-1] > 1:
                     return 'cond:sympy-eq:bit-order'
             if isinstance(c, (cirq.KeyCondition,)) and c.index != -1:
@@ -638,6 +630,14 @@ def program_checks(cirq, circuit, cfg, text, ref=None):
     # A classically controlled operation runs as a whole iff its conditions hold: every statement of its QASM body (the
     # statements it exports alone; several for H**t, CCZ, CCY, multi-qubit identity, decomposed operations; none for a
     # global phase) carries the operation's condition, and each such condition is compared with the circuit's condition.
+    # A key measured with different numbers of qubits has no Cirq semantics: every simulator refuses such a circuit
+    # ('Measurement shape (2,) does not match (2, 2)').  For these circuits only what is well defined is judged: the
+    # register declarations and measure statements (ii), the bodies of the conditional statements, and conditions on
+    # other keys; conditions on such a key and the outcome statistics are not compared.
+    widths = {}
+    for k, ax, _ in meas:
+        widths.setdefault(k, set()).add(len(ax))
+    mixed = {k for k, w in widths.items() if len(w) > 1}
     kinds = []
     ifs = [s for s in P.stmts if s[0] == 'if']
     groups = partition_ifs(ifs, ctrls, [standalone_body(cirq, sub, cfg) for _, sub, _ in ctrls])
@@ -652,6 +652,8 @@ def program_checks(cirq, circuit, cfg, text, ref=None):
                 seen.add(tuple(s[1]))
                 # the conditions of an operation are a conjunction (Cirq keeps them as a set): the operation runs iff all hold;
                 # compared as one truth table over the histories (last three measurements) of every key involved
+                if any(cond_key(cirq, c) in mixed for c in conds):
+                    continue                 # no Cirq semantics to compare with (see `mixed` above)
                 ks, regs = [], {}
                 for c in conds:
                     k = cond_key(cirq, c)
@@ -676,12 +678,12 @@ def program_checks(cirq, circuit, cfg, text, ref=None):
                          'one statement' if len(grp) == 1 else 'several statements')
     # ---- (iv) outcome distribution and per-outcome states ----
     nbits = sum(len(a) for _, a, _ in meas)
-    if nbits <= 5 and n <= 4:
+    if nbits <= 5 and n <= 4 and not mixed:
         terms, _, _ = opsem.circuit_to_mops(cirq, circuit, order, keyid)
         sh = gates.nlist([2] * n)
         out.append(('distribution', f'ensembles_close {tol} {2 ** n} {nbits} (exec FOps {sh} {terms} (zero_state {n})) '
                                     f'(qexec FOps {sh} {prog} (zero_state {n}))'))
-    return P, out, dict(tol=tol, nbits=nbits, bodies=kinds)
+    return P, out, dict(tol=tol, nbits=nbits, bodies=kinds, mixed=bool(mixed))
 
 
 class Batch:
@@ -741,6 +743,8 @@ class Batch:
         if count:
             ctx.count(stream, key, nontrivial, sample=sample if sample is not None else
                       dict(circuit=' '.join(repr(circuit).split())[:300], config=cj, instructions=len(P.stmts), checks=[l for l, _ in exprs]))
+        if info.get('mixed'):
+            ctx.cov['keys_with_several_widths_layout_only'] = ctx.cov.get('keys_with_several_widths_layout_only', 0) + 1
         cb = ctx.cov.setdefault('conditional_bodies', {})
         for kind in info.get('bodies', ()):
             cb[kind] = cb.get(kind, 0) + 1
@@ -851,7 +855,7 @@ def run(ctx):
                 'multi-qubit identity, operations without a QASM form that are decomposed) or none (global phase), resets) x (API: Circuit.to_qasm / cirq.qasm / QasmOutput) x '
                 '(version 2.0 / 3.0) x (precision 3,5,7,10) x (qubit order: given, reversed, shuffled); non-trivial = >= 2 operations '
                 'sharing a qubit and >= 1 non-diagonal gate (unitary streams), >= 1 measurement and >= 1 gate (measurement streams); '
-                'exports that refuse with an explicit "no QASM form" error are counted as trivial; distinct by canonical (circuit, configuration)')
+                'exports that refuse with an explicit "no QASM form" error are counted as trivial; for a circuit that measures one key with different widths (no Cirq simulator runs it) only registers, measure statements and conditional bodies are judged; distinct by canonical (circuit, configuration)')
     ctx.assumptions += ['transcription of qelib1.inc / stdgates.inc in coq/Vendor/Qasm.v', 'the Python reader of the emitted subset',
                         'docstring transcription in coq/Gates/GateSpecs.v', 'float tolerance 10^(1-precision) * max(1, angles/10) + 1e-9',
                         'an undefined mnemonic of 3.0 (sxdg) is reported and then read with its qelib1.inc meaning so that the rest of the program is still compared']
@@ -989,6 +993,7 @@ def directed_circuits(cirq):
         cirq.Circuit(cirq.H(q[0]), cirq.H(q[1]), cirq.measure(q[0], key='a'), cirq.measure(q[1], key='b'),
                      cirq.X(q[2]).with_classical_controls('a', 'b'), cirq.measure(q[2], key='c')),
         cirq.Circuit(cirq.H(q[0]), cirq.measure(q[0], key='a'), cirq.measure(q[0], q[1], key='a')),
+        cirq.Circuit(cirq.H(q[0]), cirq.measure(q[0], q[1], key='a'), cirq.measure(q[1], key='a')),
         # classically controlled operations whose QASM body has several statements, none, or comes from a decomposition
         cirq.Circuit(cirq.H(q[0]), cirq.measure(q[0], key='a'), cirq.CCZ(q[1], q[2], q[3]).with_classical_controls('a'), cirq.H(q[3])),
         cirq.Circuit(cirq.H(q[0]), cirq.H(q[1]), cirq.H(q[2]), cirq.measure(q[0], key='a'), cirq.CCYPowGate().on(q[1], q[2], q[3]).with_classical_controls('a')),
@@ -1007,7 +1012,7 @@ def directed_circuits(cirq):
         cirq.Circuit(cirq.X(q[0]) ** -0.5, cirq.H(q[1]), cirq.CNOT(q[1], q[0])),
         cirq.Circuit(cirq.MatrixGate(cirq.testing.random_unitary(4, random_state=7)).on(q[0], q[1])),
         cirq.Circuit(cirq.H(q[0]), cirq.measure(q[0], key='a'), (cirq.X(q[1]) ** -0.5).with_classical_controls('a')),
-        # a key measured on two qubits and then on one: the register keeps the stale high bit
+        # a key measured on two qubits and then on one (no Cirq simulator runs this: only registers and measure statements are judged)
         cirq.Circuit(cirq.H(q[0]), cirq.H(q[1]), cirq.measure(q[0], q[1], key='a'), cirq.measure(q[0], key='a'), cirq.X(q[2]).with_classical_controls('a')),
         cirq.Circuit(cirq.H(q[0]), cirq.H(q[1]), cirq.measure(q[0], q[1], key='a'), cirq.measure(q[0], key='a'),
                      cirq.X(q[2]).with_classical_controls(sympy.Eq(a, 0))),
